@@ -340,7 +340,7 @@ def rule_g(res: Results, idx: Index) -> None:
     """Shape rules (abstract_eval and friends) that treat static and symbolic extents in separate branches must compute the
     same function in both: where the static branch aggregates a list of per-operand sizes (`sum(...)`), the symbolic branch
     may not take a single element of that list (`sizes[0]`) — concatenating B and B rows is 2*B rows, not B."""
-    res.rule("R-C04g", "static and symbolic branches of a shape rule aggregate the per-operand sizes in the same way", floor=0)
+    res.rule("R-C04g", "static and symbolic branches of a shape rule aggregate the per-operand sizes in the same way; extent helpers do not hand a symbolic extent back unchanged", floor=4)
     n = 0
     for m in idx.product_modules():
         if "/plugins/" not in m.rel:
@@ -370,6 +370,38 @@ def rule_g(res: Results, idx: Index) -> None:
                     res.violation("R-C04g", f"{m.rel}:{picks[0].lineno}", key, f"with static extents the result is the sum over `{lst}`, with symbolic extents it is `{src(picks[0].value, 30)}` alone: the symbolic output dimension ignores all but one operand", fi.qualname)
                 else:
                     res.ok("R-C04g", site, key, "both branches aggregate every operand's size", fi.qualname)
+    # second form: an extent helper `f(length, window, stride, …)` that computes in the `isinstance(length, int)` branch and hands a
+    # symbolic `length` back unchanged: the output is declared with the SAME symbol as the input although it is a function of it
+    # (a pooled axis declared `H` whose run-time size is H/2)
+    for m in idx.product_modules():
+        if "/plugins/" not in m.rel:
+            continue
+        for fi in m.funcs.values():
+            a_ = fi.node.args  # type: ignore[attr-defined]
+            pnames = [x.arg for x in a_.posonlyargs + a_.args + a_.kwonlyargs]
+            if len(pnames) < 2:
+                continue
+            body = [b for b in fi.node.body if not (isinstance(b, ast.Expr) and isinstance(b.value, ast.Constant))]  # type: ignore[attr-defined]
+            if len(body) < 2 or not isinstance(body[0], ast.If):
+                continue
+            ifst = body[0]
+            t = ifst.test
+            if not (isinstance(t, ast.Call) and (call_name(t) or "") == "isinstance" and len(t.args) == 2 and isinstance(t.args[0], ast.Name) and t.args[0].id in pnames and "int" in src(t.args[1], 60)):
+                continue
+            x = t.args[0].id
+            others = set(pnames) - {x, "self", "cls"}
+            computed = [r for r in ast.walk(ifst) if isinstance(r, ast.Return) and r.value is not None and names_in(r.value) & others and x in names_in(r.value)]
+            tail = [r for b in body[1:] for r in ast.walk(b) if isinstance(r, ast.Return) and r.value is not None]
+            if not computed or not tail:
+                continue
+            n += 1
+            key = f"{m.rel}::{fi.qualname}::symbolic-extent-unchanged::{x}"
+            bare = [r for r in tail if isinstance(r.value, ast.Name) and r.value.id == x]
+            if bare:
+                res.violation("R-C04g", f"{m.rel}:{bare[0].lineno}", key, f"`{fi.name}` computes the output extent from {sorted(others)} when `{x}` is an int and returns a symbolic `{x}` unchanged: the output axis is declared with "
+                              "the input's symbol although its run-time size is a function of it (window / stride), for every binding", fi.qualname)
+            else:
+                res.ok("R-C04g", f"{m.rel}:{tail[0].lineno}", key, f"the symbolic branch of `{fi.name}` computes the extent ({'; '.join(src(r.value, 40) for r in tail)}) instead of returning `{x}` unchanged", fi.qualname)
     res.analysed["static_symbolic_shape_branches"] = n
     import textwrap
     from ..index import Module as Mod
